@@ -132,10 +132,21 @@ def do_seed(sid):
         return p, subprocess.run(['python3', '-m', 'zcsa', 'check', p, '--tier', 'quick'], cwd='/verif', env=env,
                                  stdout=subprocess.PIPE, stderr=subprocess.STDOUT).stdout.decode()
     # first check alone (fills the parse cache for the copy), the rest in parallel
-    outs = [run1(PROPS[0])]
+    props = list(PROPS)
+    if os.environ.get('MATRIX_ONLY_OWN'):
+        # quick mode: the seed's own property, plus the checks that reported it in the last full run
+        prev = []
+        if os.path.exists(meta_p):
+            try:
+                prev = json.load(open(meta_p)).get('caught_by', [])
+            except ValueError:
+                prev = []
+        props = [prop] + [p_ for p_ in prev if p_ != prop][:2]
+    outs = [run1(props[0])]
     from concurrent.futures import ThreadPoolExecutor
-    with ThreadPoolExecutor(max_workers=6) as ex:
-        outs += list(ex.map(run1, PROPS[1:]))
+    if props[1:]:
+        with ThreadPoolExecutor(max_workers=6) as ex:
+            outs += list(ex.map(run1, props[1:]))
     for p, o in outs:
         if 'VIOLATION property=' in o:
             caught.append(p)
@@ -148,6 +159,7 @@ def do_seed(sid):
             'confirmed': 'suite 37 ok with the change; demonstration (run.sh) exits non-zero with the change and 0 on the clean tree (see confirm.log)',
             'what_was_run': ['tools/seed_confirm.sh (in the sub-agent\'s scratch worktree)', 'tools/seed_rebase.sh when a fix: commit touched the same lines',
                              'tools/seed_matrix.py: patch applied to a scratch export of /repo HEAD, python3 -m zcsa check Cnn --tier quick for all 20 with ZCSA_REPO pointing at it (equivalent to git -C /repo apply; run; git -C /repo checkout -- .)'],
+            'checks_run': ('all 20' if not os.environ.get('MATRIX_ONLY_OWN') else 'own property + previous reporters'),
             'caught_by': caught, 'analysis_broken': broken, 'findings': details,
             'caught_by_own_property': prop in caught}
     json.dump(meta, open(meta_p, 'w'), indent=1)
